@@ -210,7 +210,8 @@ fn span_of(st: &MStack, l: usize, size: (i64, i64)) -> i64 {
     }
 }
 fn gen_cell(src: &mut Src, st: &MStack, name: &str, lower: &[MCellT], max_size: i64, bad_size: bool) -> MCellT {
-    let metals = src.usize_in(1, st.metals.len());
+    // leaf cells are, one time in six, cells that use no metal layer at all (they block nothing)
+    let metals = if lower.is_empty() && name != "top" && src.prob(1, 6) { 0 } else { src.usize_in(1, st.metals.len()) };
     let (qx, qy) = size_quanta(st, metals);
     let mut size = (qx * src.i64_in(1, (max_size / qx).max(1)), qy * src.i64_in(1, (max_size / qy).max(1)));
     if bad_size {
@@ -222,7 +223,7 @@ fn gen_cell(src: &mut Src, st: &MStack, name: &str, lower: &[MCellT], max_size: 
         }
     }
     let mut cell = MCellT { name: name.to_string(), size, metals, cuts: vec![], assigns: vec![], insts: vec![] };
-    if bad_size {
+    if bad_size || metals == 0 {
         return cell;
     }
     // instances of lower cells: fully inside, aligned to the period grid of every layer they reach
